@@ -179,6 +179,45 @@ def spec_projection(st):
             "wantPause": sorted(st["wantPause"]), "open": sorted(st["open"]), "queued": st["queued"], "unsent": st["unsent"]}
 
 
+def complete_loop(states):
+    """A behaviour that ends inside a wake-up loop (a witness whose goal lies there) is continued the only way it can go on by
+    itself - DilationFlow.tla's LoopStep with nothing else happening, re-sent records fitting - until the call stack is empty:
+    the real loop runs to its end in any case, and the end is where the comparison happens."""
+    import copy
+    states = list(states)
+    for _ in range(60):
+        st = states[-1]
+        if st["depth"] == 0:
+            break
+        n = copy.deepcopy(st)
+        pset, uset, deque = set(n["pset"]), set(n["uset"]), list(n["deque"])
+        if not n["paused"] and n["unsent"] > 0:
+            n["unsent"] -= 1
+            n["last"] = ["LoopSend", "-"]
+        elif n["paused"] or not pset:
+            n["depth"] -= 1
+            n["turn"] = "-"
+            n["last"] = ["LoopEnd", "-"]
+        else:
+            p = deque[0]
+            if p not in pset:
+                n["internal"] = list(n["internal"]) + ["assert:_get_next_unpaused_producer"]
+                n["depth"] = 0
+                n["turn"] = "-"
+                n["last"] = ["LoopAssert", p]
+            else:
+                deque = deque[1:] + [p]
+                pset.discard(p)
+                uset.add(p)
+                n["sig"] = dict(n["sig"], **{p: "resume"})
+                n["turn"] = p
+                n["turns"] = dict(n["turns"], **{p: n["turns"][p] + 1})
+                n["last"] = ["LoopStep", p]
+        n["pset"], n["uset"], n["deque"] = sorted(pset), sorted(uset), deque
+        states.append(n)
+    return states
+
+
 def replay_behaviour(tid, states, producers):
     w = FlowWorld(producers)
     drift = None
@@ -395,12 +434,19 @@ def run(prop, tier):
             "resend_done_then_wake": 'last[1] = "LoopStep" /\\ queued >= 2 /\\ unsent = 0',
             "lost_while_resend_throttled": 'last[1] = "StopUsingConnection" /\\ queued >= 2 /\\ Cardinality(pset) >= 1',
             "record_inside_turn_behind_waiting": 'last[1] = "AppRecord" /\\ last[2] # "-"',
+            # hand-off: the producer whose turn it is finishes - unregisters itself and has a successor registered - and the loop
+            # goes on to the next waiting producer; and the same with the buffer filling up again in that very turn
+            "handoff_inside_turn_then_next": 'last[1] = "LoopStep" /\\ depth > 0 /\\ (\\E p \\in Producers \\ Registered : turns[p] > 0) /\\ '
+                                             '(\\E q \\in Registered : q \\in uset /\\ turns[q] = 0 /\\ q # last[2])',
+            "handoff_inside_turn_then_full": 'paused /\\ depth > 0 /\\ last[1] = "TransportPause" /\\ last[2] # "-" /\\ last[2] \\notin Registered /\\ '
+                                             '(\\E q \\in Registered : turns[q] = 0 /\\ sig[q] = "pause") /\\ Cardinality(Registered) >= 2 /\\ '
+                                             'Cardinality({q \\in Registered : turns[q] = 0}) >= 2',
         }
         for name, consts in (("g2", dict(Producers={"p1", "p2"}, MaxSteps=5, MaxQueued=3)), ("g3", dict(Producers={"p1", "p2", "p3"}, MaxSteps=4, MaxQueued=0))):
             wit, unreached = common.witnesses(wd, "DilationFlow", consts, goals, "MC_C15_goal_" + name)
             cov.setdefault("witness_goals", {})[name] = {"reached": [g_ for g_, _ in wit], "unreached": unreached}
             for g_, tr in wit:
-                behaviours.append(("tlc-witness:" + g_, tr, consts["Producers"]))
+                behaviours.append(("tlc-witness:" + g_, complete_loop(tr), consts["Producers"]))
         pull = pull_producer_probe()
         inreal = inbound_real_probe()
         cov["inbound_real_probe"] = inreal
